@@ -51,6 +51,14 @@ def run(ctx, res):
         if site["loop"]:
             LR.rule_l_cv(la, res, site)
             LR.rule_l_notify(la, res, prog.func("channel_accept_writes"), site["cv"], site["reads"])
+            LR.rule_hold_notify(la, res, prog.func("channel_read_map"), site["cv"], site["reads"])
+    # "no leftovers from the aborted acquisition": whatever a worker maps from its input it releases whole,
+    # also on the paths taken once the output refuses writes (abort)
+    res.guard(RR.rule_consume, prog, res, "process_data", "iterate")
+    res.guard(RR.rule_consume, prog, res, "video_sink_thread", "append")
+    res.guard(RR.rule_pairs, prog, res, ["video_sink_thread", "process_data", "acquire_stop"])
+    res.require_min("R-CONSUME", 2)
+    res.require_min("PAIR", 4)
     from .. import platformrules as PR
     PR.run_all(prog, la, res)
     res.require_min("R-PLATFORM", 18)
